@@ -40,10 +40,16 @@ package rapid
 // endGroup's internal assertion ("group did not use any data from bitstream") is modelled as a panic
 // outcome, so every caller must either make it infeasible or allow a string panic to escape. Built-in
 // generators do not allow it: for them the assertion is proved never to fire.
+// discards: number of groups closed as discarded so far (bookkeeping for the replay discipline: a kept group must not
+// contain discarded ones unless the code that keeps it knows why that is replay-safe)
+//@ ghost discards Int
+
 //@ func bitStream.endGroup
 //@   params s, i, discard
 //@   ensures discard || drawn > gbegin[i]
-//@   panics string: !(discard || drawn > gbegin[i])
+//@   ensures discards == old(discards) + ite(discard, 1, 0)
+//@   panics string: !(discard || drawn > gbegin[i]) && discards == old(discards)
+//@   modifies discards
 
 // ---------------------------------------------------------------------------------------------
 // utils.go
@@ -78,7 +84,7 @@ package rapid
 //@   at s.endGroup#0 assert [C01,C04] arg0 == i && arg1 == (u > max)
 //@   ensures drawn > old(drawn)
 //@   panics invalidData: drawn >= old(drawn)
-//@   modifies drawn, lastWord
+//@   modifies drawn, lastWord, discards
 //@   loop 0 invariant drawn >= old(drawn)
 
 //@ func genUintNBiased
@@ -91,7 +97,7 @@ package rapid
 //@   ensures [C03] implies(result1, result0 == 0) && implies(result2, result0 == max)
 //@   ensures drawn > old(drawn)
 //@   panics invalidData: drawn >= old(drawn)
-//@   modifies drawn, lastWord
+//@   modifies drawn, lastWord, discards
 //@   loop 0 invariant [C03] 0 <= bitlen && bitlen <= 65 && 1 <= n && n <= 631
 //@   loop 0 invariant drawn > old(drawn)
 
@@ -100,7 +106,7 @@ package rapid
 //@   ensures [C03] implies(result1, result0 == 0) && implies(result2, result0 == max)
 //@   ensures drawn > old(drawn)
 //@   panics invalidData: drawn >= old(drawn)
-//@   modifies drawn, lastWord
+//@   modifies drawn, lastWord, discards
 
 //@ func genUintRange
 //@   requires [C03] min <= max
@@ -108,7 +114,7 @@ package rapid
 //@   ensures [C03] implies(result1, result0 == min) && implies(result2, result0 == max)
 //@   ensures drawn > old(drawn)
 //@   panics invalidData: drawn >= old(drawn)
-//@   modifies drawn, lastWord
+//@   modifies drawn, lastWord, discards
 
 //@ func genIntRange
 //@   requires [C03] min <= max
@@ -116,14 +122,14 @@ package rapid
 //@   ensures [C03] implies(result1, result0 == min) && implies(result2, result0 == max)
 //@   ensures drawn > old(drawn)
 //@   panics invalidData: drawn >= old(drawn)
-//@   modifies drawn, lastWord
+//@   modifies drawn, lastWord, discards
 
 //@ func genIndex
 //@   requires [C03] n > 0
 //@   ensures [C03] 0 <= result && result < n
 //@   ensures drawn > old(drawn)
 //@   panics invalidData: drawn >= old(drawn)
-//@   modifies drawn, lastWord
+//@   modifies drawn, lastWord, discards
 
 //@ func flipBiasedCoin
 //@   requires [C03] p >= 0 && p <= 1
@@ -158,7 +164,7 @@ package rapid
 //@   ensures [C03] implies(signifBits == 23, ub32(float32(min)) <= compose32(result0, result1, result2) && compose32(result0, result1, result2) <= ub32(float32(max)))
 //@   ensures drawn > old(drawn)
 //@   panics invalidData: drawn >= old(drawn)
-//@   modifies drawn, lastWord
+//@   modifies drawn, lastWord, discards
 //@   loop 0 invariant [C03] sfMin <= sf && sf <= sfMax
 //@   loop 0 decreases uint(maxR) - uint(r) - i
 
@@ -170,7 +176,7 @@ package rapid
 //@   ensures [C03] implies(signifBits == 23, min <= float64(f32val(result0, result1, result2, result3)) && float64(f32val(result0, result1, result2, result3)) <= max)
 //@   ensures drawn > old(drawn)
 //@   panics invalidData: drawn >= old(drawn)
-//@   modifies drawn, lastWord
+//@   modifies drawn, lastWord, discards
 
 // ---------------------------------------------------------------------------------------------
 // repeat: collection length control
@@ -185,7 +191,7 @@ package rapid
 //@   ensures [C03] fresh(result) && 0 <= result.minCount && result.minCount <= result.maxCount && 0 <= result.count && result.count <= result.maxCount
 //@   ensures [C03,slow] result.pContinue >= 0
 //@   ensures [C03,slow] result.pContinue <= 1
-//@   ensures [C03] result.count == 0 && result.group == -1 && !result.forceStop
+//@   ensures [C03,C04] result.count == 0 && result.group == -1 && !result.forceStop && !result.rejected
 //@   ensures [C03] result.minCount == ite(minCount < 0, 0, minCount) && result.maxCount == ite(maxCount < 0, math.MaxInt, maxCount)
 //@   ensures [C03] implies(avgCount < 0, result.avgCount >= 0 && result.avgCount <= 1<<54) && implies(avgCount >= 0, result.avgCount == avgCount)
 
@@ -208,11 +214,12 @@ package rapid
 //   rejected; the new group starts as not rejected; the group that holds the stopping coin is kept (the pruned replay
 //   needs that word to stop at the same place).
 //@   ensures [C01,C04] !r.rejected
+//@   ensures [C04] discards == old(discards) + ite(old(r.group) >= 0 && old(r.rejected), 1, 0)
 //@   at s.endGroup#0 assert [C01,C04] arg0 == old(r.group) && arg1 == old(r.rejected)
 //@   at s.endGroup#1 assert [C01,C04] !arg1
 //@   at s.endGroup#2 assert [C01,C04] arg0 == r.group && !arg1
-//@   panics invalidData: drawn >= old(drawn)
-//@   modifies r.group, r.rejected, r.count, drawn, lastWord
+//@   panics invalidData: drawn >= old(drawn) && discards >= old(discards) && discards <= old(discards) + ite(old(r.group) >= 0 && old(r.rejected), 1, 0)
+//@   modifies r.group, r.rejected, r.count, drawn, lastWord, discards
 
 //@ func (*repeat).reject
 //@   requires [C03] repeatInv(r) && r.count > 0
@@ -237,12 +244,16 @@ package rapid
 //@ define bufRun(s) = arr(s.buf) == old(arr(s.buf)) && off(s.buf) + len(s.buf) == old(off(s.buf) + len(s.buf)) && len(s.buf) <= old(len(s.buf)) && s.persist == old(s.persist) && implies(s.persist, len(s.data) - old(len(s.data)) == old(len(s.buf)) - len(s.buf) && forall(k, old(len(s.data)), len(s.data), s.data[k] <= old(s.buf[k - len(s.data)])) && forall(k, 0, old(len(s.data)), s.data[k] == old(s.data[k])) && (arr(s.data) == old(arr(s.data)) || fresh(arr(s.data))) && (arr(s.groups) == old(arr(s.groups)) || fresh(arr(s.groups))))
 //@ define streamRely(x) = implies(hasType(x, bufBitStream), recWF(deref(x, bufBitStream)) && bufRun(deref(x, bufBitStream))) && implies(hasType(x, randomBitStream), recWF(deref(x, randomBitStream)) && deref(x, randomBitStream).persist == old(deref(x, randomBitStream).persist))
 
+// drawRely: user code holding a *T reaches the bit stream only through Draw (and Repeat, which draws its action keys
+// through Draw before anything can be rejected): whenever groups were discarded, a Draw has been started.
+//@ define drawRely(t) = t.attempts >= old(t.attempts) && t.draws >= old(t.draws) && discards >= old(discards) && implies(discards > old(discards), t.attempts > old(t.attempts))
+
 //@ callback func(*T)
 //@   params fn, t
 //@   requires [C14] unlocked(t)
-//@   ensures drawn >= old(drawn) && relyUser(t) && streamRely(t.s)
-//@   panics any: drawn >= old(drawn) && relyUser(t) && streamRely(t.s)
-//@   modifies drawn, t.failed, t.cleanups, elems(t.cleanups), t.ctx, t.cancelCtx, t.draws, stream(t.s)
+//@   ensures drawn >= old(drawn) && relyUser(t) && streamRely(t.s) && drawRely(t)
+//@   panics any: drawn >= old(drawn) && relyUser(t) && streamRely(t.s) && drawRely(t)
+//@   modifies drawn, t.failed, t.cleanups, elems(t.cleanups), t.ctx, t.cancelCtx, t.draws, t.attempts, stream(t.s), discards
 
 //@ callback func(*T) V
 //@   params fn, t
@@ -275,8 +286,8 @@ package rapid
 //@   assumes "generator implementations signal a failure only by panicking, never by recording it on the enclosing *T"
 //@   assumes "generator implementations do not call Draw with the enclosing *T (user code inside Custom runs on an inner T)"
 //@   ensures t.failed == old(t.failed)
-//@   ensures drawn >= old(drawn) && relyUser(t) && t.draws == old(t.draws)
-//@   panics any: drawn >= old(drawn) && relyUser(t) && t.draws == old(t.draws)
+//@   ensures drawn >= old(drawn) && relyUser(t) && t.draws == old(t.draws) && t.attempts == old(t.attempts) && discards >= old(discards)
+//@   panics any: drawn >= old(drawn) && relyUser(t) && t.draws == old(t.draws) && t.attempts == old(t.attempts) && discards >= old(discards)
 //@   modifies drawn, t.failed, t.cleanups, elems(t.cleanups), t.ctx, t.cancelCtx, t.draws, stream(t.s)
 
 //@ func generatorImpl.String
@@ -295,9 +306,9 @@ package rapid
 //@   assumes "generator implementations signal a failure only by panicking, never by recording it on the enclosing *T"
 //@   ensures t.failed == old(t.failed)
 //@   ensures [C03] drawn > old(drawn)
-//@   ensures relyUser(t) && t.draws == old(t.draws)
-//@   panics any: drawn >= old(drawn) && relyUser(t) && t.draws == old(t.draws)
-//@   modifies drawn, t.failed, t.cleanups, elems(t.cleanups), t.ctx, t.cancelCtx, t.draws, stream(t.s), onceDone, onceIn
+//@   ensures relyUser(t) && t.draws == old(t.draws) && t.attempts == old(t.attempts) && discards >= old(discards)
+//@   panics any: drawn >= old(drawn) && relyUser(t) && t.draws == old(t.draws) && t.attempts == old(t.attempts) && discards >= old(discards)
+//@   modifies drawn, t.failed, t.cleanups, elems(t.cleanups), t.ctx, t.cancelCtx, t.draws, stream(t.s), onceDone, onceIn, discards
 
 // ---------------------------------------------------------------------------------------------
 // collections.go
@@ -314,7 +325,7 @@ package rapid
 //@   requires [C03] g.minLen < 1<<52
 //@   ensures [C03] lenOK(len(result), g.minLen, g.maxLen)
 //@   panics any: true
-//@   modifies drawn, t.failed, t.cleanups, elems(t.cleanups), t.ctx, t.cancelCtx, t.draws, g.elem.str, g.elem.strOnce, lastWord, onceDone, onceIn
+//@   modifies drawn, t.failed, t.cleanups, elems(t.cleanups), t.ctx, t.cancelCtx, t.draws, g.elem.str, g.elem.strOnce, lastWord, onceDone, onceIn, discards
 //@   loop 0 invariant [C01,C03,C04] len(sl) == repeat.count && repeatInv(repeat) && groupUsed(repeat)
 //@   loop 0 invariant [C01,C03,C04] repeat.minCount == minOf(g.minLen) && repeat.maxCount == maxOf(g.maxLen)
 
@@ -327,7 +338,7 @@ package rapid
 //@   requires [C03] g.minLen < 1<<52
 //@   ensures [C03] lenOK(len(result), g.minLen, g.maxLen)
 //@   panics any: true
-//@   modifies drawn, t.failed, t.cleanups, elems(t.cleanups), t.ctx, t.cancelCtx, t.draws, g.val.str, g.val.strOnce, g.key.str, g.key.strOnce, lastWord, onceDone, onceIn
+//@   modifies drawn, t.failed, t.cleanups, elems(t.cleanups), t.ctx, t.cancelCtx, t.draws, g.val.str, g.val.strOnce, g.key.str, g.key.strOnce, lastWord, onceDone, onceIn, discards
 //@   loop 0 invariant [C01,C03,C04] len(m) == repeat.count && repeatInv(repeat) && groupUsed(repeat)
 //@   loop 0 invariant [C01,C03,C04] repeat.minCount == minOf(g.minLen) && repeat.maxCount == maxOf(g.maxLen)
 
@@ -338,7 +349,7 @@ package rapid
 //@   noframe "calls an arbitrary generator attempt function"
 //@   requires [C03] tries >= 0 && gen != nil
 //@   panics any: true
-//@   modifies drawn, t.failed, t.cleanups, t.ctx, t.cancelCtx, t.draws, stream(t.s)
+//@   modifies drawn, t.failed, t.cleanups, t.ctx, t.cancelCtx, t.draws, stream(t.s), discards
 //@   loop 0 invariant [C03] 0 <= n && n <= tries
 //@   loop 0 decreases tries - n
 //   Replay discipline (C04, C01): the group of a try is closed as discarded iff the try failed.
@@ -350,7 +361,7 @@ package rapid
 //@   requires [C03] len(g.slice) > 0
 //@   ensures [C03] existsw(k, 0, len(g.slice), now(i), result == g.slice[k])
 //@   panics invalidData: true
-//@   modifies drawn, lastWord
+//@   modifies drawn, lastWord, discards
 
 //@ func (*oneOfGen).value
 //@   immutable g
@@ -358,7 +369,7 @@ package rapid
 //@   noframe "runs element generators, which may run user code"
 //@   requires [C03] len(g.gens) > 0
 //@   panics any: true
-//@   modifies drawn, t.failed, t.cleanups, elems(t.cleanups), t.ctx, t.cancelCtx, t.draws, onceDone, onceIn, lastWord
+//@   modifies drawn, t.failed, t.cleanups, elems(t.cleanups), t.ctx, t.cancelCtx, t.draws, onceDone, onceIn, lastWord, discards
 
 //@ func (*ptrGen).value
 //@   immutable g
@@ -366,14 +377,17 @@ package rapid
 //@   noframe "runs element generators, which may run user code"
 //@   ensures [C03] implies(!g.allowNil, result != nil)
 //@   panics any: true
-//@   modifies drawn, t.failed, t.cleanups, elems(t.cleanups), t.ctx, t.cancelCtx, t.draws, lastWord, onceDone, onceIn
+//@   modifies drawn, t.failed, t.cleanups, elems(t.cleanups), t.ctx, t.cancelCtx, t.draws, lastWord, onceDone, onceIn, discards
 
 //@ func (*permGen).value
 //@   immutable g
 //@   ensures [C15] true
 //@   ensures [C03] len(result) == len(g.slice)
+//   The permutation is a private copy: never the generator's own slice (C15: a check that edits its draw in place
+//   must not rewrite the shared generator; C03: the input stays unmodified).
+//@   ensures [C03,C15] arr(result) == nil || fresh(arr(result))
 //@   panics invalidData: true
-//@   modifies drawn, lastWord
+//@   modifies drawn, lastWord, discards
 //@   loop 0 invariant [C03] repeatInv(repeat) && groupUsed(repeat) && i == repeat.count && repeat.maxCount == ite(n - 1 < 0, 0, n - 1) && len(s) == n && n == len(g.slice)
 
 //@ func (*boolGen).value
@@ -387,7 +401,7 @@ package rapid
 //@   ensures [C15] true
 //@   requires [C03] implies(g.signed, g.smin <= g.smax) && implies(!g.signed, g.umin <= g.umax)
 //@   panics invalidData: true
-//@   modifies drawn, lastWord
+//@   modifies drawn, lastWord, discards
 
 //@ func (*float64Gen).value
 //@   immutable g
@@ -395,7 +409,7 @@ package rapid
 //@   requires [C03] g.min <= g.max
 //@   ensures [C03] g.min <= result && result <= g.max
 //@   panics invalidData: true
-//@   modifies drawn, lastWord
+//@   modifies drawn, lastWord, discards
 
 //@ func (*float32Gen).value
 //@   immutable g
@@ -403,7 +417,7 @@ package rapid
 //@   requires [C03] g.min <= g.max && exact32(g.min) && exact32(g.max)
 //@   ensures [C03] g.min <= float64(result) && float64(result) <= g.max
 //@   panics invalidData: true
-//@   modifies drawn, lastWord
+//@   modifies drawn, lastWord, discards
 
 // ---------------------------------------------------------------------------------------------
 // strings.go
@@ -417,7 +431,7 @@ package rapid
 //@   ensures [C03] implies(g.maxLen >= 0, len(result) <= g.maxLen)
 //@   ensures [C03] minOf(g.minRunes) <= runesWritten - old(runesWritten) && runesWritten - old(runesWritten) <= maxOf(g.maxRunes)
 //@   panics any: true
-//@   modifies drawn, runesWritten, t.failed, t.cleanups, elems(t.cleanups), t.ctx, t.cancelCtx, t.draws, g.elem.str, g.elem.strOnce, lastWord, onceDone, onceIn
+//@   modifies drawn, runesWritten, t.failed, t.cleanups, elems(t.cleanups), t.ctx, t.cancelCtx, t.draws, g.elem.str, g.elem.strOnce, lastWord, onceDone, onceIn, discards
 //@   loop 0 invariant [C03] repeatInv(repeat) && groupUsed(repeat) && len(b.buf) <= maxLen
 //@   loop 0 invariant [C01,C03,C04] repeat.minCount == minOf(g.minRunes) && repeat.maxCount == maxOf(g.maxRunes) && maxLen == maxOf(g.maxLen)
 //@   loop 0 invariant [C01,C03,C04] runesWritten - old(runesWritten) == repeat.count
@@ -461,19 +475,19 @@ package rapid
 //@   modifies all(s.ctx), s.data, s.dataLen, elems(s.data)
 
 //@ func (*recordedBits).beginGroup
-//@   requires [C04] 0 <= rec.dataLen
-//@   ensures [C04] implies(!rec.persist, result == rec.dataLen && len(rec.groups) == old(len(rec.groups)))
-//@   ensures [C04] implies(rec.persist, result == old(len(rec.groups)) && len(rec.groups) == result + 1 && rec.groups[result].begin == len(rec.data) && rec.groups[result].end == -1 && rec.groups[result].standalone == standalone && !rec.groups[result].discard)
-//@   ensures [C04] implies(rec.persist, forall(k, 0, old(len(rec.groups)), rec.groups[k].begin == old(rec.groups[k].begin) && rec.groups[k].end == old(rec.groups[k].end) && rec.groups[k].discard == old(rec.groups[k].discard) && rec.groups[k].standalone == old(rec.groups[k].standalone)))
-//@   ensures [C03,C04] result >= 0
+//@   requires [C01,C04,C05,C13,C17] 0 <= rec.dataLen
+//@   ensures [C01,C04,C05,C13,C17] implies(!rec.persist, result == rec.dataLen && len(rec.groups) == old(len(rec.groups)))
+//@   ensures [C01,C04,C05,C13,C17] implies(rec.persist, result == old(len(rec.groups)) && len(rec.groups) == result + 1 && rec.groups[result].begin == len(rec.data) && rec.groups[result].end == -1 && rec.groups[result].standalone == standalone && !rec.groups[result].discard)
+//@   ensures [C01,C04,C05,C13,C17] implies(rec.persist, forall(k, 0, old(len(rec.groups)), rec.groups[k].begin == old(rec.groups[k].begin) && rec.groups[k].end == old(rec.groups[k].end) && rec.groups[k].discard == old(rec.groups[k].discard) && rec.groups[k].standalone == old(rec.groups[k].standalone)))
+//@   ensures [C01,C03,C04,C05,C13,C17] result >= 0
 //@   modifies rec.groups, elems(rec.groups)
 
 //@ func (*recordedBits).endGroup
-//@   requires [C04] implies(rec.persist, 0 <= i && i < len(rec.groups))
-//@   ensures [C04] discard || implies(!rec.persist, rec.dataLen > i) && implies(rec.persist, len(rec.data) > old(rec.groups[i].begin))
-//@   ensures [C04] implies(rec.persist, rec.groups[i].end == len(rec.data) && rec.groups[i].discard == discard && rec.groups[i].begin == old(rec.groups[i].begin))
-//@   ensures [C04] implies(rec.persist, forall(k, 0, len(rec.groups), k == i || rec.groups[k].begin == old(rec.groups[k].begin) && rec.groups[k].end == old(rec.groups[k].end) && rec.groups[k].discard == old(rec.groups[k].discard)))
-//@   panics string [C04]: !discard && implies(!rec.persist, rec.dataLen <= i) && implies(rec.persist, len(rec.data) <= rec.groups[i].begin)
+//@   requires [C01,C04,C05,C13,C17] implies(rec.persist, 0 <= i && i < len(rec.groups))
+//@   ensures [C01,C04,C05,C13,C17] discard || implies(!rec.persist, rec.dataLen > i) && implies(rec.persist, len(rec.data) > old(rec.groups[i].begin))
+//@   ensures [C01,C04,C05,C13,C17] implies(rec.persist, rec.groups[i].end == len(rec.data) && rec.groups[i].discard == discard && rec.groups[i].begin == old(rec.groups[i].begin))
+//@   ensures [C01,C04,C05,C13,C17] implies(rec.persist, forall(k, 0, len(rec.groups), k == i || rec.groups[k].begin == old(rec.groups[k].begin) && rec.groups[k].end == old(rec.groups[k].end) && rec.groups[k].discard == old(rec.groups[k].discard)))
+//@   panics string [C01,C04,C05,C13,C17]: !discard && implies(!rec.persist, rec.dataLen <= i) && implies(rec.persist, len(rec.data) <= rec.groups[i].begin)
 //@   modifies elems(rec.groups)
 
 // ---------------------------------------------------------------------------------------------
@@ -485,6 +499,9 @@ package rapid
 // store to them respects the transition invariant below (whatever other goroutines did in between).
 //@ guarded T.failed, T.cleanups, T.ctx, T.cancelCtx by mu
 //@ transition T.failed [C02,C14]: old == "" || new != ""
+// The cleanup stack changes by one element at a time, relative to what it holds at the moment of the store (whatever
+// other goroutines pushed meanwhile): push one, or pop the top.
+//@ transition T.cleanups [C10,C14]: len(new) == len(old) + 1 || (len(new) == len(old) - 1 && arr(new) == arr(old) && off(new) == off(old))
 // A context is cleared only in the cleanup phase (flag raised first: a concurrent Context() that finds the field
 // empty then sees the flag and hands out a cancelled context instead of installing a second live one).
 //@ transition T.ctx [C10,C14]: (old == nil || new == nil) && implies(old != nil && new == nil, self.cleaning.v != 0)
@@ -649,7 +666,7 @@ package rapid
 //@   ensures [C05] implies(result != nil, result.traceback != "    <no error>\n")
 //@   ensures drawn >= old(drawn)
 //@   ensures [C05] streamRely(t.s)
-//@   modifies t.failed, t.cleanups, elems(t.cleanups), t.ctx, t.cancelCtx, t.cleaning.v, t.draws, drawn, lockmode[addr(t.mu)], stream(t.s), propFalsified, cleanupSkipped, cancelled
+//@   modifies t.failed, t.cleanups, elems(t.cleanups), t.ctx, t.cancelCtx, t.cleaning.v, t.draws, drawn, lockmode[addr(t.mu)], stream(t.s), propFalsified, cleanupSkipped, cancelled, discards
 
 // ---------------------------------------------------------------------------------------------
 // combinators.go: Custom
@@ -670,16 +687,19 @@ package rapid
 // pendingCheck: an action has completed (or Repeat has just started) and the invariant has not been run since.
 
 //@ ghost pendingCheck Bool
-// drawnAtAction: value of the ghost draw counter when the current action was chosen (executeAction)
-//@ ghost drawnAtAction Int
+// discardsAtAction: value of the ghost discard counter when the current action was chosen (executeAction)
+//@ ghost discardsAtAction Int
 
 //@ func runAction
 //@   noframe "calls the user's action"
 //@   assumes-nonnil-calls "the actions map given to Repeat holds no nil functions, and every key the key generator returns is in the map"
 //@   requires [C08] t.failed == "" && unlocked(t)
 //@   ensures [C02,C08] t.failed == "" && implies(skipped, invalid) && unlocked(t) && drawn >= old(drawn)
-//@   panics any [C02,C08]: unlocked(t) && implies(isInvalidData(panicval), t.failed != "")
-//@   modifies drawn, t.failed, t.cleanups, elems(t.cleanups), t.ctx, t.cancelCtx, t.draws, lockmode[addr(t.mu)], stream(t.s)
+//   An action counts as skipped only if it gave up before starting any Draw - then it has discarded nothing (C04).
+//@   ensures [C04,C08] implies(skipped, t.attempts == old(t.attempts) && discards == old(discards))
+//@   ensures [C04,C08] drawRely(t)
+//@   panics any [C02,C08]: unlocked(t) && implies(isInvalidData(panicval), t.failed != "") && drawRely(t)
+//@   modifies drawn, t.failed, t.cleanups, elems(t.cleanups), t.ctx, t.cancelCtx, t.draws, t.attempts, lockmode[addr(t.mu)], stream(t.s), discards
 
 //@ func (*Generator).Draw
 //@   immutable g
@@ -692,26 +712,28 @@ package rapid
 //   The draw counter counts every completed Draw and nothing else, whatever the logging mode: runAction tells
 //   "skipped before drawing" from "drew, then skipped" by it, so a replay with logging on (final replay, fuzzing,
 //   -rapid.v) must count exactly like the run that found the failure.
-//@   ensures [C01,C04,C08,C13] t.draws == old(t.draws) + 1
-//@   panics any [C01,C04,C08,C13]: drawn >= old(drawn) && relyUser(t) && t.draws == old(t.draws)
-//@   modifies drawn, t.failed, t.cleanups, elems(t.cleanups), t.ctx, t.cancelCtx, t.draws, stream(t.s), onceDone, onceIn
+//@   ensures [C01,C04,C08,C13] t.draws == old(t.draws) + 1 && t.attempts == old(t.attempts) + 1 && discards >= old(discards)
+//@   panics any [C01,C04,C08,C13]: drawn >= old(drawn) && relyUser(t) && t.draws == old(t.draws) && t.attempts == old(t.attempts) + 1 && discards >= old(discards)
+//@   modifies drawn, t.failed, t.cleanups, elems(t.cleanups), t.ctx, t.cancelCtx, t.draws, stream(t.s), onceDone, onceIn, discards
 
 //@ func (*stateMachine).executeAction
 //@   noframe "calls user actions"
 //@   requires [C08] t.failed == "" && unlocked(t)
 //@   ensures [C02,C08] t.failed == "" && unlocked(t) && drawn >= old(drawn)
 //@   ensures [C08] now(n) < validActionTries
+//@   ensures [C04] t.attempts > old(t.attempts) && t.draws >= old(t.draws) && discards >= old(discards)
 //@   ensures [C08] result == !now(invalid) && !now(skipped)
-//@   panics any [C08]: true
-//@   modifies drawn, t.failed, t.cleanups, elems(t.cleanups), t.ctx, t.cancelCtx, t.draws, lockmode[addr(t.mu)], stream(t.s), onceDone, onceIn
+//@   panics any [C04,C08]: drawRely(t)
+//@   modifies drawn, t.failed, t.cleanups, elems(t.cleanups), t.ctx, t.cancelCtx, t.draws, lockmode[addr(t.mu)], stream(t.s), onceDone, onceIn, discards
 //@   loop 0 invariant [C08] 0 <= n && n <= validActionTries && t.failed == "" && unlocked(t) && drawn >= old(drawn)
+//@   loop 0 invariant [C04] drawRely(t) && implies(n > 0, t.attempts > old(t.attempts))
 //@   loop 0 decreases validActionTries - n
 //   Replay discipline (C04): a skipped action is a rejected attempt. If it has consumed bits (a Draw that gave up
 //   after retries), tries inside it are marked discard; unless its own group is marked too, the pruned replay runs
 //   the same action again on bits that belong to what followed.
-//@   at sm.actionKeys.Draw#0 set drawnAtAction = drawn
-//@   at t.s.endGroup#0 assert [C04] implies(skipped && drawn > drawnAtAction, arg1)
-//@   modifies drawnAtAction
+//@   at sm.actionKeys.Draw#0 set discardsAtAction = discards
+//@   at t.s.endGroup#0 assert [C04] implies(skipped && discards > discardsAtAction, arg1)
+//@   modifies discardsAtAction
 
 //@ func (*T).Repeat
 //@   noframe "calls user actions and the invariant"
@@ -719,12 +741,15 @@ package rapid
 //   state is kept on a T, which findBug re-uses for every test case (C11, and C04/C07: a test case is a function of
 //   its bit stream alone).
 //@   frame-only T [C04,C07,C11]
+//@   frame-only cmdline [C04,C07,C11]
 //@   assumes-nonnil-calls "the actions map given to Repeat holds no nil functions"
 //@   requires [C08] t.failed == "" && unlocked(t)
 //@   requires [C08] pendingCheck
 //@   ensures [C08] t.failed == "" && unlocked(t)
-//@   panics any [C08]: true
-//@   modifies drawn, pendingCheck, t.failed, t.cleanups, elems(t.cleanups), t.ctx, t.cancelCtx, t.draws, lockmode[addr(t.mu)], stream(t.s), drawnAtAction, lastWord, onceDone, onceIn
+//   Repeat itself obeys what is assumed of user code holding a *T (it is one of the ways user code reaches the stream):
+//@   ensures [C04] drawRely(t)
+//@   panics any [C04,C08]: drawRely(t)
+//@   modifies drawn, pendingCheck, t.failed, t.cleanups, elems(t.cleanups), t.ctx, t.cancelCtx, t.draws, lockmode[addr(t.mu)], stream(t.s), discardsAtAction, lastWord, onceDone, onceIn, discards, t.attempts
 //@   at sm.check#0 assert [C08] pendingCheck && t.failed == ""
 //@   at sm.check#0 set pendingCheck = false
 //@   at repeat.more#0 assert [C08] !pendingCheck
@@ -734,6 +759,7 @@ package rapid
 //@   at sm.check#1 set pendingCheck = false
 //@   at repeat.reject#0 assert [C08] !pendingCheck
 //@   loop 1 invariant [C08] t.failed == "" && unlocked(t) && !pendingCheck && repeatInv(repeat) && groupUsed(repeat)
+//@   loop 1 invariant [C04] drawRely(t) && implies(repeat.rejected, t.attempts > old(t.attempts))
 
 // ---------------------------------------------------------------------------------------------
 // engine.go: the Check driver
@@ -766,8 +792,10 @@ package rapid
 //@   ensures [C09] implies(result2, now(iter) > 0 && int64(untilG) < int64(now(total)) / int64(now(iter)) * 5)
 //@   at time.Until#0 set untilG = result
 //@   ensures [C01,C02] sawFailure == (result4 != nil)
-//@   modifies heap, drawn, runs, lastInit, sawFailure, lockmode, cancelled, cleanupSkipped, propFalsified, untilG
+//@   modifies heap, drawn, runs, lastInit, sawFailure, lockmode, cancelled, cleanupSkipped, propFalsified, untilG, discards
 //@   at r.init#0 assert [C07] implies(valid + invalid == 0, arg0 == old(seed))
+//   Test cases within one run differ (C18): every case is seeded differently from the one before it.
+//@   at r.init#0 assert [C18] implies(valid + invalid > 0, arg0 != lastInit)
 //@   at r.init#0 set lastInit = arg0
 //@   at checkOnce#0 set runs = runs + 1
 //@   at checkOnce#0 set sawFailure = result != nil && !isInvalidData(result.data)
@@ -775,6 +803,7 @@ package rapid
 //@   loop 0 invariant [C09] 0 <= valid && valid <= checks && 0 <= invalid && invalid <= checks*10 && runs - old(runs) == valid + invalid
 //@   loop 0 invariant [C11] clean(t) && unlocked(t) && fresh(t)
 //@   loop 0 invariant [C07] implies(valid + invalid == 0, seed == old(seed))
+//@   loop 0 invariant [C18] implies(valid + invalid > 0, seed == lastInit)
 
 // ---------------------------------------------------------------------------------------------
 // persist.go
@@ -806,7 +835,7 @@ package rapid
 //@   ensures [C17] tbFailed == old(tbFailed) && tbErrors == old(tbErrors)
 //@   ensures [C17] implies(result1 != nil || result2 != nil, result1 != nil && !isInvalidData(result1.data))
 //@   ensures [C17] implies(now(err) != nil || now(version) != rapidVersion, result1 == nil && result2 == nil && len(result0) == 0)
-//@   modifies heap, drawn, lockmode, cancelled, cleanupSkipped, ioFailed, propFalsified, fsClosed
+//@   modifies heap, drawn, lockmode, cancelled, cleanupSkipped, ioFailed, propFalsified, fsClosed, discards
 
 // saveFailFile (C16): every crash point leaves either no file under the final name or a complete one.
 // The only call that creates or changes a file under a name the discovery pattern can match is os.Rename;
@@ -816,10 +845,12 @@ package rapid
 
 //@ func saveFailFile
 //@   noframe "only ghost file-system state and fresh strings"
+//@   defines !fsOtherCreate
+//@   ensures [C16] !fsOtherCreate
 //@   ensures [C16] implies(result == nil, fsRenamed)
 //@   ensures [C16] implies(fsRenamed != old(fsRenamed), fsClosed)
 //@   ensures [C16] old(fsRenames) <= fsRenames && fsRenames <= old(fsRenames) + 1
-//@   modifies fsWritten, fsClosed, fsRenamed, fsTmpName, fsTmpDir, fsRenamedAtCreate, fsRenames, joinedG
+//@   modifies fsWritten, fsClosed, fsRenamed, fsTmpName, fsTmpDir, fsRenamedAtCreate, fsRenames, joinedG, fsOtherCreate
 //@   at os.CreateTemp#0 assert [C06,C16] arg1 == ".rapid-failfile-tmp-*" && arg0 == dir
 //@   at os.Rename#0 assert [C16] fsClosed && arg0 == fsTmpName && arg1 == filename && fsTmpDir == dir
 //   Content (C06): the data part is one header line made from version and seed, then one line per word of buf, in
@@ -846,7 +877,7 @@ package rapid
 //@   noframe "runs the property"
 //@   assumes-pre !flags.debugvis
 //@   requires [C05] prop != nil && err != nil && err.traceback != "    <no error>\n" && rec.persist && recWF(rec)
-//@   modifies heap, drawn, lockmode, cancelled, cleanupSkipped, cmpAt, lessAt, propFalsified
+//@   modifies heap, drawn, lockmode, cancelled, cleanupSkipped, cmpAt, lessAt, propFalsified, discards
 
 // The pass loop of the shrinker: the invariant holds at every pass call (each pass is under contract, see the end of
 // this file), and what is returned is the current best recording - on the normal path together with its error, on the
@@ -860,17 +891,20 @@ package rapid
 //@   requires [C05] forall(k, 0, len(s.rec.groups), !s.rec.groups[k].discard)
 //@   ensures [C01,C05] flags.debugvis == old(flags.debugvis)
 //@   ensures [C01,C05] arr(result0) == arr(s.rec.data) && off(result0) == off(s.rec.data) && len(result0) == len(s.rec.data)
-//@   modifies heap, drawn, lockmode, cancelled, cmpAt, lessAt, propFalsified, cleanupSkipped
+//@   modifies heap, drawn, lockmode, cancelled, cmpAt, lessAt, propFalsified, cleanupSkipped, discards
 //@   loop 0 invariant [C01,C05] shrInv(s) && !flags.debugvis
 //@   loop 1 invariant true
 
 // ffFalsified: the replay of a fail file has falsified the property (first replay failed with a real failure);
 // from then on no fresh random test case may be generated (C09), whatever the second replay says.
 //@ ghost ffFalsified Bool
+// ffTried: number of fail files doCheck has replayed so far
+//@ ghost ffTried (_ BitVec 64)
 
 //@ func doCheck
 //@   noframe "runs the property"
 //@   defines !ffFalsified
+//@   defines ffTried == 0
 //@   requires [C09] 0 <= checks && checks <= math.MaxInt/10
 //@   requires [C17] prop != nil && !tbFailed && !searched && !sawFailure
 //@   ensures [C06,C17] implies(searched, result4 == "")
@@ -878,15 +912,20 @@ package rapid
 //@   ensures [C07] implies(searched && (result6 != nil || result7 != nil), result3 == lastInit)
 //@   ensures [C09] implies(result6 == nil && result7 == nil, searched && result3 == 0 && result4 == "")
 //@   ensures [C02,C17] tbFailed == old(tbFailed) && tbErrors == old(tbErrors)
-//@   modifies heap, drawn, runs, lastInit, searched, sawFailure, lockmode, cancelled, ffFalsified, cleanupSkipped, propFalsified, runesWritten, ioFailed, fsClosed, cmpAt, lessAt, untilG
+//@   modifies heap, drawn, runs, lastInit, searched, sawFailure, lockmode, cancelled, ffFalsified, cleanupSkipped, propFalsified, runesWritten, ioFailed, fsClosed, cmpAt, lessAt, untilG, ffTried, discards
 //@   at findBug#0 assert [C17] seed == old(seed) && checks == old(checks) && !tbFailed
 //@   at failFilePattern#0 assert [C06] arg0 == tbNameOf(tb)
 //@   at checkFailFile#0 set ffFalsified = result1 != nil
+//   Every fail file found is replayed before the random search starts (C06: the saved failure is found and replayed
+//   first, whatever other - stale, foreign, no longer valid - files sort before it; C17: those are just skipped).
+//@   at checkFailFile#0 set ffTried = ffTried + 1
+//@   at findBug#0 assert [C06,C17] ffTried == len(failfiles)
 //@   at findBug#0 assert [C02,C09] !ffFalsified
 //@   at findBug#0 set searched = true
 //@   at newRandomBitStream#0 assert [C07] arg0 == lastInit && arg1
 //@   loop 0 invariant [C17] seed == old(seed) && checks == old(checks) && tbFailed == old(tbFailed) && tbErrors == old(tbErrors) && !searched && -1 <= rangeindex && rangeindex < len(failfiles)
 //@   loop 0 invariant [C02,C09] !ffFalsified
+//@   loop 0 invariant [C06,C17] ffTried == rangeindex + 1
 
 // Without -rapid.seed the base seed is the Sum64 of a maphash.Hash allocated for this very call: a zero Hash picks
 // its random per-object seed lazily, so only a fresh object gives a fresh value (a recycled one repeats itself).
@@ -901,7 +940,7 @@ package rapid
 //@   noframe "runs the property"
 //@   requires prop != nil
 //@   ensures tbFailed == old(tbFailed) && tbErrors == old(tbErrors)
-//@   modifies heap, drawn, lockmode, cancelled, cleanupSkipped, propFalsified
+//@   modifies heap, drawn, lockmode, cancelled, cleanupSkipped, propFalsified, discards
 
 //@ func checkTB
 //@   noframe "runs the property"
@@ -913,7 +952,7 @@ package rapid
 //@   ensures [C09] tbErrors == old(tbErrors)
 //@   panics goexit [C02,C06,C09,C16]: tbFailed && tbErrors == old(tbErrors) + 1 && fsRenames <= old(fsRenames) + 1
 //@   ensures [C06,C16] fsRenames <= old(fsRenames) + 1
-//@   modifies heap, drawn, runs, lastInit, searched, sawFailure, lockmode, cancelled, tbFailed, tbErrors, fsWritten, fsClosed, fsRenamed, fsTmpName, fsTmpDir, fsRenamedAtCreate, fsRenames, runesWritten, capturedOut, cleanupSkipped, ffFalsified, propFalsified, ioFailed, cmpAt, lessAt, untilG, joinedG
+//@   modifies heap, drawn, runs, lastInit, searched, sawFailure, lockmode, cancelled, tbFailed, tbErrors, fsWritten, fsClosed, fsRenamed, fsTmpName, fsTmpDir, fsRenamedAtCreate, fsRenames, runesWritten, capturedOut, cleanupSkipped, ffFalsified, propFalsified, ioFailed, cmpAt, lessAt, untilG, joinedG, fsOtherCreate, ffTried, discards
 //@   at captureTestOutput#0 set capturedOut = arr(result)
 //@   at saveFailFile#0 assert [C06,C16] fsRenames == old(fsRenames) && arr(arg2) == capturedOut
 //   The fail file is saved under the directory and name derived from the very test name that doCheck globs for.
@@ -940,7 +979,7 @@ package rapid
 //@   requires [C13] prop != nil
 //@   ensures [C13] now(err) == nil && tbFailed == old(tbFailed)
 //@   panics goexit [C13]: true
-//@   modifies heap, drawn, lockmode, cancelled, tbFailed, tbSkipped, cleanupSkipped, propFalsified
+//@   modifies heap, drawn, lockmode, cancelled, tbFailed, tbSkipped, cleanupSkipped, propFalsified, discards
 //@   at newBufBitStream#0 assert [C13] !arg1 && len(arg0) == (old(len(input)) + 7) / 8
 //@   at newBufBitStream#0 assert [C13] forall(j, 0, len(arg0), arg0[j] == fuzzWords[j])
 //@   at binary.LittleEndian.Uint64#0 ensure [C13] trig(len(buf)) || !trig(len(buf))
@@ -1102,14 +1141,14 @@ package rapid
 //@   requires [C01,C05] arr(buf) == nil || arr(buf) != arr(s.rec.data)
 //@   ensures [C01,C05] s.prop != nil && s.err != nil && s.err.traceback != "    <no error>\n" && s.rec.persist && recWF(addr(s.rec))
 //@   ensures [C05] implies(!result, s.err == old(s.err) && arr(s.rec.data) == old(arr(s.rec.data)) && off(s.rec.data) == old(off(s.rec.data)) && len(s.rec.data) == old(len(s.rec.data)) && s.shrinks == old(s.shrinks))
-//@   ensures [C01] implies(result, s.err == now(err1) && now(err1) != nil)
+//@   ensures [C01,C12] implies(result, s.err == now(err1) && now(err1) != nil)
 //@   ensures [C05] implies(result, tbOf(s.err) == tbOf(old(s.err)) && s.shrinks == old(s.shrinks) + 1)
 //@   ensures [C05] implies(result, old(lessData(buf, s.rec.data)))
 //@   ensures [C05] implies(result, len(s.rec.data) <= len(buf))
 //@   panics testError [C01]: flags.debugvis == old(flags.debugvis) && refOf(panicval) == now(err2)
 //@   ensures [C01,C05] flags.debugvis == old(flags.debugvis)
 //@   ensures [C01,C05] arr(s.rec.groups) == old(arr(s.rec.groups)) || fresh(arr(s.rec.groups)) || arr(s.rec.groups) == nil
-//@   modifies heap, drawn, lockmode, cancelled, cmpAt, lessAt, cleanupSkipped, propFalsified
+//@   modifies heap, drawn, lockmode, cancelled, cmpAt, lessAt, cleanupSkipped, propFalsified, discards
 
 // ---------------------------------------------------------------------------------------------
 // Reachability (C18, C12): witnessed scenarios. For every max and every v <= max outside the known hole there
@@ -1126,7 +1165,7 @@ package rapid
 //@   requires [C12,C18] v <= max && !inHole(v, max)
 //@   ensures [C12,C18] result0 == v
 //@   panics invalidData: true
-//@   modifies drawn, lastWord
+//@   modifies drawn, lastWord, discards
 //@   at genGeom#0 witness [C12,C18] uint64(witnessN(v)) - 1
 //@   at s.drawBits#0 witness [C12,C18] v
 
@@ -1135,14 +1174,14 @@ package rapid
 //@   requires [C18] v <= max && inHole(v, max)
 //@   ensures [C18] result0 != v
 //@   panics invalidData: true
-//@   modifies drawn, lastWord
+//@   modifies drawn, lastWord, discards
 
 //@ func genUintNBiased@reachall
 //@   given v (_ BitVec 64)
 //@   requires [C12,C18] v <= max
 //@   ensures [C12,C18] result0 == v
 //@   panics invalidData: true
-//@   modifies drawn, lastWord
+//@   modifies drawn, lastWord, discards
 //@   at genGeom#0 witness [C12,C18] uint64(witnessN(v)) - 1
 //@   at s.drawBits#0 witness [C12,C18] v
 
@@ -1174,7 +1213,7 @@ package rapid
 //@   noframe "runs the deferred generator"
 //@   ensures [C15] true
 //@   panics any: true
-//@   modifies drawn, t.failed, t.cleanups, elems(t.cleanups), t.ctx, t.cancelCtx, t.draws, stream(t.s), onceDone, onceIn
+//@   modifies drawn, t.failed, t.cleanups, elems(t.cleanups), t.ctx, t.cancelCtx, t.draws, stream(t.s), onceDone, onceIn, discards
 
 //@ callback func() *Generator[V]
 //@   params fn
@@ -1214,7 +1253,7 @@ package rapid
 //@   nosafety "reflection calls are abstracted"
 //@   ensures [C04] true
 //@   panics any: true
-//@   modifies heap, drawn, lastWord, rejectedAttempt, stream(t.s), onceDone, onceIn
+//@   modifies heap, drawn, lastWord, rejectedAttempt, stream(t.s), onceDone, onceIn, discards
 //@   at repeat.more#0 set rejectedAttempt = false
 //@   at repeat.reject#0 set rejectedAttempt = true
 //@   at m.SetMapIndex#0 assert [C04] !rejectedAttempt
@@ -1244,7 +1283,16 @@ package rapid
 //@   trusted "reflection: only the closure frame is checked"
 //@ func genAnyStruct$1
 //@   captures [C15] typ, numFields, fieldGens
-//@   trusted "reflection: only the closure frame is checked"
+//@   noframe "builds a struct through reflection"
+//@   nosafety "reflection calls are abstracted; numFields == len(fieldGens) by construction in genAnyStruct"
+//   Every attempt of a Custom function must consume at least one (possibly zero-width) draw: find closes the attempt's
+//   group and the stream asserts that a group used data - also for a struct without fields (C03: a value or a
+//   rejection, never an internal assertion).
+//@   assumes-pre numFields >= 0
+//@   ensures [C03] drawn > old(drawn)
+//@   panics any: true
+//@   modifies heap, drawn, lastWord, stream(t.s), onceDone, onceIn, discards
+//@   loop 0 invariant [C03] 0 <= i && drawn >= old(drawn) && implies(i > 0, drawn > old(drawn))
 //@ func MakeFuzz$1
 //@   captures [C13] prop
 //@   trusted "only the closure frame is checked; the body is checkFuzz"
@@ -1262,7 +1310,7 @@ package rapid
 //@   ensures [C10] len(t.cleanups) == 0 && t.ctx == nil && t.cancelCtx == nil && !cleaning(t) && unlocked(t)
 //@   ensures [C10] 1 <= result1 && result1 <= exampleMaxTries
 //@   panics any [C10]: len(t.cleanups) == 0 && t.ctx == nil && t.cancelCtx == nil && !cleaning(t) && unlocked(t)
-//@   modifies drawn, t.failed, t.cleanups, elems(t.cleanups), t.ctx, t.cancelCtx, t.cleaning.v, t.draws, cancelled, lockmode[addr(t.mu)], stream(t.s), onceDone, onceIn
+//@   modifies drawn, t.failed, t.cleanups, elems(t.cleanups), t.ctx, t.cancelCtx, t.cleaning.v, t.draws, cancelled, lockmode[addr(t.mu)], stream(t.s), onceDone, onceIn, discards
 //@   loop 0 invariant [C10] 1 <= i && i <= exampleMaxTries && unlocked(t) && ctxInv(t) && !cleaning(t)
 
 //@ func (*Generator).Example
@@ -1272,7 +1320,7 @@ package rapid
 //@   at example#0 assert [C10] clean(arg1) && unlocked(arg1) && fresh(arg1)
 //@   at example#0 assert [C04,C07] hasType(arg1.s, randomBitStream) && !deref(arg1.s, randomBitStream).persist
 //@   at newRandomBitStream#0 assert [C04,C07] implies(len(seed) > 0, arg0 == seed[0]) && !arg1
-//@   modifies heap, drawn, lockmode, cancelled, onceDone, onceIn
+//@   modifies heap, drawn, lockmode, cancelled, onceDone, onceIn, discards
 
 // ---------------------------------------------------------------------------------------------
 // make.go: the kind switch of Make (C03: "the requested dynamic type for Make"). dynKind(g) is the reflect.Kind of
@@ -1321,7 +1369,7 @@ package rapid
 //@   requires [C01,C05] shrInv(s)
 //@   ensures [C01,C05] shrInv(s) && flags.debugvis == old(flags.debugvis)
 //@   panics testError [C01,C05]: flags.debugvis == old(flags.debugvis)
-//@   modifies heap, drawn, lockmode, cancelled, cmpAt, lessAt, propFalsified, cleanupSkipped
+//@   modifies heap, drawn, lockmode, cancelled, cmpAt, lessAt, propFalsified, cleanupSkipped, discards
 //@   loop 0 invariant [C01,C05] shrInv(s) && flags.debugvis == old(flags.debugvis)
 
 //@ func (*shrinker).lowerFloatHack
@@ -1331,7 +1379,7 @@ package rapid
 //@   requires [C01,C05] shrInv(s)
 //@   ensures [C01,C05] shrInv(s) && flags.debugvis == old(flags.debugvis)
 //@   panics testError [C01,C05]: flags.debugvis == old(flags.debugvis)
-//@   modifies heap, drawn, lockmode, cancelled, cmpAt, lessAt, propFalsified, cleanupSkipped
+//@   modifies heap, drawn, lockmode, cancelled, cmpAt, lessAt, propFalsified, cleanupSkipped, discards
 //@   loop 0 invariant [C01,C05] shrInv(s) && flags.debugvis == old(flags.debugvis)
 
 //@ func (*shrinker).removeGroupsAndLower
@@ -1341,7 +1389,7 @@ package rapid
 //@   requires [C01,C05] shrInv(s)
 //@   ensures [C01,C05] shrInv(s) && flags.debugvis == old(flags.debugvis)
 //@   panics testError [C01,C05]: flags.debugvis == old(flags.debugvis)
-//@   modifies heap, drawn, lockmode, cancelled, cmpAt, lessAt, propFalsified, cleanupSkipped
+//@   modifies heap, drawn, lockmode, cancelled, cmpAt, lessAt, propFalsified, cleanupSkipped, discards
 //@   loop 0 invariant [C01,C05] shrInv(s) && flags.debugvis == old(flags.debugvis)
 //@   loop 1 invariant [C01,C05] shrInv(s) && flags.debugvis == old(flags.debugvis)
 
@@ -1352,7 +1400,7 @@ package rapid
 //@   requires [C01,C05] shrInv(s)
 //@   ensures [C01,C05] shrInv(s) && flags.debugvis == old(flags.debugvis)
 //@   panics testError [C01,C05]: flags.debugvis == old(flags.debugvis)
-//@   modifies heap, drawn, lockmode, cancelled, cmpAt, lessAt, propFalsified, cleanupSkipped
+//@   modifies heap, drawn, lockmode, cancelled, cmpAt, lessAt, propFalsified, cleanupSkipped, discards
 //@   loop 0 invariant [C01,C05] shrInv(s) && flags.debugvis == old(flags.debugvis)
 //@   loop 1 invariant [C01,C05] shrInv(s) && flags.debugvis == old(flags.debugvis)
 //@   loop 2 invariant [C01,C05] shrInv(s) && flags.debugvis == old(flags.debugvis)
@@ -1364,7 +1412,7 @@ package rapid
 //@   requires [C01,C05] shrInv(s)
 //@   ensures [C01,C05] shrInv(s) && flags.debugvis == old(flags.debugvis)
 //@   panics testError [C01,C05]: flags.debugvis == old(flags.debugvis)
-//@   modifies heap, drawn, lockmode, cancelled, cmpAt, lessAt, propFalsified, cleanupSkipped
+//@   modifies heap, drawn, lockmode, cancelled, cmpAt, lessAt, propFalsified, cleanupSkipped, discards
 //@   loop 0 invariant [C01,C05] shrInv(s) && flags.debugvis == old(flags.debugvis)
 //@   loop 1 invariant [C01,C05] shrInv(s) && flags.debugvis == old(flags.debugvis) && fresh(arr(groups)) && arr(groups) != arr(s.rec.groups)
 
@@ -1376,7 +1424,7 @@ package rapid
 //@   requires [C01,C05] shrInv(s)
 //@   ensures [C01,C05] shrInv(old(s)) && flags.debugvis == old(flags.debugvis)
 //@   panics testError [C01,C05]: flags.debugvis == old(flags.debugvis)
-//@   modifies heap, drawn, lockmode, cancelled, cmpAt, lessAt, propFalsified, cleanupSkipped
+//@   modifies heap, drawn, lockmode, cancelled, cmpAt, lessAt, propFalsified, cleanupSkipped, discards
 
 //@ func (*shrinker).minimizeBlocks
 //@   trusted "follows from the contract of its function literal (proved above: the candidate is a fresh copy, the invariant is kept) and from minimize calling nothing but that literal"
@@ -1411,7 +1459,7 @@ package rapid
 //@   requires [C18] ub64(min) <= tb && tb <= ub64(max)
 //@   ensures [C18] result0 == partE(tb) && result1 == partSI(tb) && result2 == partSF(tb)
 //@   panics invalidData: true
-//@   modifies drawn, lastWord
+//@   modifies drawn, lastWord, discards
 //@   at genIntRange#0 witness [C18] tuple(int64(partE(tb)), false, false)
 //@   at genUintRange#0 witness [C18] tuple(partSI(tb), false, false)
 //@   at genUintNNoReject#0 witness [C18] uint64(maxR)
@@ -1429,7 +1477,7 @@ package rapid
 //@   requires [C18] uint64(ub32(float32(min))) <= tb && tb <= uint64(ub32(float32(max)))
 //@   ensures [C18] result0 == partE32(tb) && result1 == partSI32(tb) && result2 == partSF32(tb)
 //@   panics invalidData: true
-//@   modifies drawn, lastWord
+//@   modifies drawn, lastWord, discards
 //@   at genIntRange#0 witness [C18] tuple(int64(partE32(tb)), false, false)
 //@   at genUintRange#0 witness [C18] tuple(partSI32(tb), false, false)
 //@   at genUintNNoReject#0 witness [C18] uint64(maxR)
@@ -1444,7 +1492,7 @@ package rapid
 //@   requires [C18] bias && v <= max && !inHole(v, max)
 //@   ensures [C18] result0 == v
 //@   panics invalidData: true
-//@   modifies drawn, lastWord
+//@   modifies drawn, lastWord, discards
 //@   at genUintNBiased#0 witness [C18] tuple(v, false, false)
 
 //@ func genUintRange@reach
@@ -1452,7 +1500,7 @@ package rapid
 //@   requires [C18] bias && min <= v && v <= max && !inHole(v - min, max - min)
 //@   ensures [C18] result0 == v
 //@   panics any: true
-//@   modifies drawn, lastWord
+//@   modifies drawn, lastWord, discards
 //@   at genUintN#0 witness [C18] tuple(v - min, false, false)
 
 //@ func genIntRange@reach
@@ -1461,7 +1509,7 @@ package rapid
 //   (composition with genUintRange@reach / genUintN@reach / genUintNBiased@reachall inherits the hole of F8)
 //@   ensures [C18] result0 == int64(v)
 //@   panics any: true
-//@   modifies drawn, lastWord
+//@   modifies drawn, lastWord, discards
 //@   at flipBiasedCoin#0 witness [C18] int64(v) < 0 || (max <= 0 && min < 0)
 //@   at genUintRange#0 witness [C18] tuple(uint64(-int64(v)), false, false)
 //@   at genUintRange#1 witness [C18] tuple(v, false, false)
@@ -1482,3 +1530,77 @@ package rapid
 //@   at kindaSafeFilename#1 assert [C06,C16,C17] arg0 == testName
 //@   at fmt.Sprintf#0 assert [C06,C16,C17] arg0 == "%s-*.fail"
 //@   at filepath.Join#0 assert [C06,C16,C17] arg0[0] == "testdata" && arg0[1] == "rapid" && len(arg0) == 3
+
+// Signed float ranges (C18): every value of [min, max] - given by sign tn and the bit pattern tb of its magnitude - is
+// reachable through the sign coin and genUfloatRange called with the matching half range.
+//@ func genFloatRange@reach
+//@   given tn Bool
+//@   given tb (_ BitVec 64)
+//@   requires [C18] min <= max && signifBits == 52
+//@   requires [C18] implies(tn, min < 0 && ub64(ite(max <= 0, -max, 0.0)) <= tb && tb <= ub64(-min))
+//@   requires [C18] implies(!tn, (min >= 0 || max > 0) && ub64(ite(min >= 0, min, 0.0)) <= tb && tb <= ub64(max))
+//@   ensures [C18] result0 == tn && result1 == partE(tb) && result2 == partSI(tb) && result3 == partSF(tb)
+//@   panics invalidData: true
+//@   modifies drawn, lastWord, discards
+//@   at flipBiasedCoin#0 witness [C18] tn
+//@   at genUfloatRange#0 witness [C18] tuple(partE(tb), partSI(tb), partSF(tb))
+//@   at genUfloatRange#1 witness [C18] tuple(partE(tb), partSI(tb), partSF(tb))
+
+// ---------------------------------------------------------------------------------------------
+// The remaining generator implementations (C15: drawing writes no field of the shared generator object; C03: a value
+// passes Filter only if the predicate accepted exactly that value).
+//@ ghost predOK Bool
+
+//@ func (*filteredGen).maybeValue
+//@   immutable g
+//@   requires g.fn != nil
+//@   ensures [C15] true
+//@   noframe "runs the wrapped generator and the user's predicate"
+//@   at g.fn#0 set predOK = result
+//@   ensures [C03] result1 == predOK
+//@   panics any: true
+//@   modifies drawn, t.failed, t.cleanups, elems(t.cleanups), t.ctx, t.cancelCtx, t.draws, stream(t.s), onceDone, onceIn, predOK, lastWord, discards
+
+//@ func (*filteredGen).value
+//@   immutable g
+//@   ensures [C15] true
+//@   noframe "runs the wrapped generator and the user's predicate"
+//@   panics any: true
+//@   modifies drawn, t.failed, t.cleanups, elems(t.cleanups), t.ctx, t.cancelCtx, t.draws, stream(t.s), onceDone, onceIn, predOK, lastWord, discards
+
+//@ func (*customGen).value
+//@   immutable g
+//@   ensures [C15] true
+//@   noframe "runs the user's generator function"
+//@   panics any: true
+//@   modifies drawn, t.failed, t.cleanups, elems(t.cleanups), t.ctx, t.cancelCtx, t.draws, stream(t.s), onceDone, onceIn, lastWord, cancelled, lockmode, discards
+
+//@ func (*mappedGen).value
+//@   immutable g
+//@   requires g.fn != nil
+//@   ensures [C15] true
+//@   noframe "runs the wrapped generator and the user's function"
+//@   panics any: true
+//@   modifies drawn, t.failed, t.cleanups, elems(t.cleanups), t.ctx, t.cancelCtx, t.draws, stream(t.s), onceDone, onceIn, lastWord, discards
+
+//@ func (*asAnyGen).value
+//@   immutable g
+//@   ensures [C15] true
+//@   noframe "runs the wrapped generator"
+//@   panics any: true
+//@   modifies drawn, t.failed, t.cleanups, elems(t.cleanups), t.ctx, t.cancelCtx, t.draws, stream(t.s), onceDone, onceIn, lastWord, discards
+
+// The deadline of a Check (C09: fewer than N cases are accepted only near it): the test's own deadline when it has
+// one, otherwise now + 24h - never the zero time of a (time.Time, false) answer.
+//@ ghost dlOK Bool
+//@ ghost fbWall (_ BitVec 64)
+//@ ghost fbExt (_ BitVec 64)
+//@ func checkDeadline
+//@   defines dlOK
+//@   at t.Deadline#0 set dlOK = result1
+//@   at (time.Time).Add#0 set fbWall = result.wall
+//@   at (time.Time).Add#0 set fbExt = result.ext
+//@   at (time.Time).Add#1 set fbWall = result.wall
+//@   at (time.Time).Add#1 set fbExt = result.ext
+//@   ensures [C09] implies(!dlOK, result.wall == fbWall && result.ext == fbExt)
+//@   modifies dlOK, fbWall, fbExt
